@@ -30,6 +30,7 @@ func TestVerifC05(t *testing.T) {
 	vRunSessionBatches(t, r, batches/2, n, steps, 0, "dishonest")
 	vC05TimeoutRace(r)
 	vC05SlowReaderBacklog(r)
+	vC05StalledWriteQueue(r)
 	vC05CrashPoints(r)
 }
 
